@@ -1,7 +1,8 @@
 /-! fs worker (sources/fs.rs worker loop + ConfigWatched) with a recording watcher. -/
 namespace Fw
 
-inductive Kind | native | poll deriving Repr, DecidableEq
+/-- `poll2` is the poll watcher with ANOTHER interval: `Watcher::Poll(d)` carries its interval, so two intervals are two kinds -/
+inductive Kind | native | poll | poll2 deriving Repr, DecidableEq
 
 structure WP where
   name : String
@@ -43,7 +44,7 @@ def errNOf (named : List (String × Nat)) (name : String) : Nat :=
   | none => 1
 
 def wpStr (w : WP) : String := w.name ++ (if w.recursive then "+" else "-")
-def kindStr : Kind → String | .native => "N" | .poll => "P"
+def kindStr : Kind → String | .native => "N" | .poll => "P" | .poll2 => "Q"
 
 /-- Config::file_watcher + Config::pathset: two signal_change() calls; `parked` says whether a Notified is armed -/
 def applyCfg (s : St) (c : Cfg) (parked : Bool) : St :=
